@@ -1,28 +1,77 @@
 (* C05 — Equal numbers are indistinguishable however computed; conversions follow spec.
-   ONLY theorem statements; each is closed by [exact] of a lemma of C05/Proofs*.v, C05/Refuted.v. *)
+   ONLY theorem statements; each is closed by [exact] of a lemma of C05/Proofs*.v, C05/Refuted.v.
+   I = goja's numeric paths transcribed (coq/C05/Model.v, tree after the fixes of F7-F10);
+   S = the ECMAScript operations on the mathematical value [num_sem]. *)
 From Coq Require Import ZArith Bool List SpecFloat.
 From Verif.Base Require Import F64.
-From Verif.C05 Require Import Model Proofs Refuted.
+From Verif.C05 Require Import Model Proofs Proofs2 Proofs3 Proofs4 Refuted.
 Local Open Scope Z_scope.
 
+(* 1. one mathematical value has exactly one canonical, well-formed representation *)
+Theorem canon_unique : forall a b, canon a = true -> canon b = true -> wf a = true -> wf b = true ->
+  num_sem a = num_sem b -> a = b.
+Proof. exact Proofs2.canon_unique. Qed.
+
+(* 2. the canonicalisers: total, always canonical, equal to the specification-level canonicaliser *)
 Theorem canon_of_canon : forall f, canon (canon_of f) = true.
 Proof. exact Proofs.canon_of_canon. Qed.
+Theorem floatToValue_canon : forall f, canon (floatToValue f) = true.
+Proof. exact Proofs2.floatToValue_canon. Qed.
+Theorem floatToValue_eq_canon_of : forall f, floatToValue f = canon_of f.
+Proof. exact Proofs2.floatToValue_eq_canon_of. Qed.
+Theorem intToValue_canon : forall i, canon (intToValue i) = true.
+Proof. exact Proofs2.intToValue_canon. Qed.
+Theorem toNumeric_canon_id : forall a, canon a = true -> toNumeric a = a.
+Proof. exact Proofs2.toNumeric_canon_id. Qed.
 
-(* ---- findings: the transcription of the current tree does not have the full-strength property ---- *)
-Theorem inc_canon_refuted : exists a, canon a = true /\ wf a = true /\ canon (op_inc a) = false.
-Proof. exact Refuted.inc_canon_refuted. Qed.
-Theorem dec_canon_refuted : exists a, canon a = true /\ wf a = true /\ canon (op_dec a) = false.
-Proof. exact Refuted.dec_canon_refuted. Qed.
-Theorem neg_canon_refuted : exists a, canon a = true /\ wf a = true /\ canon (op_neg a) = false.
-Proof. exact Refuted.neg_canon_refuted. Qed.
-Theorem intToValue_canon_refuted : exists i, canon (intToValue i) = false.
-Proof. exact Refuted.intToValue_canon_refuted. Qed.
-Theorem add_canon_refuted : exists a b, canon a = true /\ canon b = true /\ canon (op_add a b) = false.
-Proof. exact Refuted.add_canon_refuted. Qed.
-Theorem mul_canon_refuted : exists a b, canon a = true /\ canon b = true /\ canon (op_mul a b) = false.
-Proof. exact Refuted.mul_canon_refuted. Qed.
-Theorem toInt32_refuted : exists a, canon a = true /\ wf a = true /\ toInt32 a <> ToInt32_spec (val a).
-Proof. exact Refuted.toInt32_refuted. Qed.
+(* 3. closure, full strength: every unary/binary operator, Math function and integer conversion of the
+      model returns a canonical Number on canonical operands; hence so does every expression tree *)
+Theorem un_canon_closed : forall o a, canon a = true -> canon (I_un o a) = true.
+Proof. exact Proofs4.un_canon_closed. Qed.
+Theorem bin_canon_closed : forall o a b, canon a = true -> canon b = true -> canon (I_bin o a b) = true.
+Proof. exact Proofs4.bin_canon_closed. Qed.
+Theorem pow_canon_closed : forall a b r, op_pow a b = Some r -> canon r = true.
+Proof. exact Proofs4.pow_canon_closed. Qed.
+Theorem canon_closed : forall e rho, (forall x, canon (rho x) = true) -> canon (eval rho e) = true.
+Proof. exact Proofs4.canon_closed. Qed.
+
+(* 4. float64(i) is exact on the safe range (the bridge between the two representations) *)
+Theorem of_Z_exact : forall z, z <> 0 -> Z.abs z <= two53 ->
+  exists s m e, of_Z z = S754_finite s m e /\ s = (z <? 0) /\
+    is_integral (of_Z z) = true /\ trunc_Z (of_Z z) = Some z /\
+    valid_binary prec64 emax64 (of_Z z) = true /\ int_like (of_Z z) = true.
+Proof. exact Proofs3.of_Z_exact. Qed.
+
+(* 5. SameValue / === / SameValueZero as goja implements them per constructor pair agree with the
+      specification on canonical values, in BOTH argument orders *)
+Theorem sameAs_iff_eq : forall a b, canon a = true -> canon b = true -> (sameAs a b = true <-> a = b).
+Proof. exact Proofs3.sameAs_iff_eq. Qed.
+Theorem sameAs_sound : forall a b, canon a = true -> canon b = true -> wf a = true -> wf b = true ->
+  sameAs a b = sameAs b a /\ sameAs a b = same_value_spec (num_sem a) (num_sem b).
+Proof. exact Proofs3.sameAs_sound. Qed.
+Theorem strictEquals_sound : forall a b, canon a = true -> canon b = true -> wf a = true -> wf b = true ->
+  strictEquals a b = strictEquals b a /\ strictEquals a b = strict_eq_spec (num_sem a) (num_sem b).
+Proof. exact Proofs4.strictEquals_sound. Qed.
+Theorem sameValueZero_sound : forall a b, canon a = true -> canon b = true -> wf a = true -> wf b = true ->
+  sameValueZero a b = sameValueZero b a /\
+  sameValueZero a b = same_value_zero_spec (num_sem a) (num_sem b).
+Proof. exact Proofs3.sameValueZero_sound. Qed.
+
+(* 6. hashing respects SameValueZero on canonical numbers (self-contained: imported by C18) *)
+Theorem hash_respects_svz_num : forall a b, canon a = true -> canon b = true ->
+  sameValueZero a b = true -> hash_words a = hash_words b.
+Proof. exact Proofs3.hash_respects_svz_num. Qed.
+
+(* 7. integer conversions equal the specification for every canonical input (no |x| < 2^63 guard) *)
+Theorem toIntN_eq_spec : forall signed bits a, 0 < bits <= 32 -> canon a = true ->
+  toIntN signed bits a = spec_modulo bits signed (val a).
+Proof. exact Proofs4.toIntN_eq_spec. Qed.
+Theorem toInt32_eq_spec : forall a, canon a = true -> toInt32 a = ToInt32_spec (val a).
+Proof. exact Proofs4.toInt32_eq_spec. Qed.
+Theorem toUint32_eq_spec : forall a, canon a = true -> toUint32 a = ToUint32_spec (val a).
+Proof. exact Proofs4.toUint32_eq_spec. Qed.
+
+(* ---- open findings: the transcription of the current tree does not have the full-strength property ---- *)
 Theorem mul_zero_sign_refuted : exists a b, canon a = true /\ canon b = true /\
   num_sem (op_mul a b) <> num_sem (S_bin BMul a b).
 Proof. exact Refuted.mul_zero_sign_refuted. Qed.
@@ -30,53 +79,24 @@ Theorem sameAs_noncanonical_asymmetric : exists a b, wf a = true /\ wf b = true 
   sameAs a b = false /\ sameAs b a = true /\ hash a <> hash b.
 Proof. exact Refuted.sameAs_noncanonical_asymmetric. Qed.
 
-Print Assumptions canon_of_canon.
-Print Assumptions inc_canon_refuted.
-Print Assumptions toInt32_refuted.
-
-(* ---- theorems over ALL inputs of the model ---- *)
-From Verif.C05 Require Import Proofs2.
-
-(* 1. one mathematical value has exactly one canonical, well-formed representation *)
-Theorem canon_unique : forall a b, canon a = true -> canon b = true -> wf a = true -> wf b = true ->
-  num_sem a = num_sem b -> a = b.
-Proof. exact Proofs2.canon_unique. Qed.
-
-(* 2. goja's canonicaliser is total, always canonical, and IS the specification-level canonicaliser *)
-Theorem floatToValue_canon : forall f, canon (floatToValue f) = true.
-Proof. exact Proofs2.floatToValue_canon. Qed.
-Theorem floatToValue_eq_canon_of : forall f, floatToValue f = canon_of f.
-Proof. exact Proofs2.floatToValue_eq_canon_of. Qed.
-Theorem toNumeric_canon_id : forall a, canon a = true -> toNumeric a = a.
-Proof. exact Proofs2.toNumeric_canon_id. Qed.
-
-(* 3. intToValue is canonical on the guarded range (full statement refuted above: F9) *)
-Theorem intToValue_canon_partial : forall i, Z.abs i <=? two53 = true -> canon (intToValue i) = true.
-Proof. exact Proofs2.intToValue_canon_partial. Qed.
-
-(* 4. closure: producers routed through floatToValue are canonical for every input; + and ++ on
-      integers under the explicit range guard (unguarded statements refuted above: F7, F9) *)
-Theorem un_canon_float_routed : forall o a, In o (UAbs :: UFloor :: UCeil :: UFround :: USqrt :: nil) ->
-  canon (I_un o a) = true.
-Proof. exact Proofs2.un_canon_float_routed. Qed.
-Theorem bin_canon_float_routed : forall a b, canon (m_max a b) = true /\ canon (m_min a b) = true.
-Proof. exact Proofs2.bin_canon_float_routed. Qed.
-Theorem add_float_canon : forall a g, canon (op_add a (NFlt g)) = true.
-Proof. exact Proofs2.add_float_canon. Qed.
-Theorem add_int_canon_partial : forall x y, Z.abs x <=? two53 = true -> Z.abs y <=? two53 = true ->
-  Z.abs (x + y) <=? two53 = true -> op_add (NInt x) (NInt y) = NInt (x + y) /\ canon (op_add (NInt x) (NInt y)) = true.
-Proof. exact Proofs2.add_int_canon_partial. Qed.
-Theorem inc_int_canon_partial : forall n, Z.abs n <=? two53 = true -> Z.abs (n + 1) <=? two53 = true ->
-  canon (op_inc (NInt n)) = true.
-Proof. exact Proofs2.inc_int_canon_partial. Qed.
-
 Print Assumptions canon_unique.
+Print Assumptions canon_of_canon.
 Print Assumptions floatToValue_canon.
 Print Assumptions floatToValue_eq_canon_of.
+Print Assumptions intToValue_canon.
 Print Assumptions toNumeric_canon_id.
-Print Assumptions intToValue_canon_partial.
-Print Assumptions un_canon_float_routed.
-Print Assumptions bin_canon_float_routed.
-Print Assumptions add_float_canon.
-Print Assumptions add_int_canon_partial.
-Print Assumptions inc_int_canon_partial.
+Print Assumptions un_canon_closed.
+Print Assumptions bin_canon_closed.
+Print Assumptions pow_canon_closed.
+Print Assumptions canon_closed.
+Print Assumptions of_Z_exact.
+Print Assumptions sameAs_iff_eq.
+Print Assumptions sameAs_sound.
+Print Assumptions strictEquals_sound.
+Print Assumptions sameValueZero_sound.
+Print Assumptions hash_respects_svz_num.
+Print Assumptions toIntN_eq_spec.
+Print Assumptions toInt32_eq_spec.
+Print Assumptions toUint32_eq_spec.
+Print Assumptions mul_zero_sign_refuted.
+Print Assumptions sameAs_noncanonical_asymmetric.
